@@ -103,3 +103,16 @@ pub(crate) fn take_add_failure() -> bool {
 }
 
 pub use crate::threadpool::{verif_run_pool, Task};
+
+// ---------------------------------------------------------------------------------------------
+// direct access to the word-at-a-time scanners of the request parser (the `parser` module is private)
+
+/// `parser::simd::match_uri_vectored`: length of the longest prefix of visible ASCII bytes.
+pub fn match_uri_vectored(buf: &[u8]) -> usize {
+    crate::parser::simd::match_uri_vectored(buf)
+}
+
+/// `parser::simd::match_path_vectored`: index of the first `?` or space (or the length).
+pub fn match_path_vectored(buf: &[u8]) -> usize {
+    crate::parser::simd::match_path_vectored(buf)
+}
